@@ -61,7 +61,10 @@ def correspondence(ctx):
                 b.write_file(s3, eobjs)                       # same object written again
                 s4 = io.StringIO()
                 Bec2File(B.build(cm, comps), bobjs, key2).write_file(s4, eobjs)   # same blocks, other key
-                return t1, s2.getvalue(), s3.getvalue(), s4.getvalue()
+                b.session_key = key2                          # the SAME object, key changed between writes
+                s5 = io.StringIO()
+                b.write_file(s5, eobjs)
+                return t1, s2.getvalue(), s3.getvalue(), s4.getvalue(), s5.getvalue()
             h = run_impl(history)
             nk, nr = toyecc.STATE["nk"], toyecc.STATE["nr"]
             qf = B.qfile_new(cm, comps)
@@ -75,8 +78,10 @@ def correspondence(ctx):
                      "let* (t2, nk) := t_write g %s nk in "
                      "let* (t3, nk) := t_write b %s nk in "
                      "let (b2, nr) := t_new %s %s (Some %s) nr in "
-                     "let* (t4, nk) := t_write b2 %s nk in Ok ([t1; t2; t3; t4], nk, nr))" % (
-                         qf, qb, qkey, qe, qs, qe, qe, qf, qb, qbytes(key2), qe))
+                     "let* (t4, nk) := t_write b2 %s nk in "
+                     "let* (t5, nk) := t_write (mkBec2 (b_bf3 b) (b_blocks b) %s) %s nk in "
+                     "Ok ([t1; t2; t3; t4; t5], nk, nr))" % (
+                         qf, qb, qkey, qe, qs, qe, qe, qf, qb, qbytes(key2), qe, qbytes(key2), qe))
             want = qres(h, lambda v: "(%s, %s, %s)" % (qlist([B.qstr(x) for x in v], "str"), qN(nk), qN(nr)))
             exprs.append("res_eqb (prod_eqb (prod_eqb (list_eqb str_eqb) N.eqb) N.eqb) %s %s" % (model, want))
             descr.append(("history", cm, comps, blocks, key, encs, sub))
